@@ -15,6 +15,8 @@ inductive Entry where
   | rsubj (r : RSubj) (id : Nat)
   | asubj (sj : Subj) (id : Nat)
   | publish (src : Nat) (sj : Subj) (id : Nat) (conns : Nat)   -- conns: cell holding the list of handles
+  | refc (sj : Subj) (id : Nat)                                -- ref_count / replay connectable
+  | counter (c : Nat)
 deriving Inhabited
 
 abbrev Env := List (String × Entry)
@@ -23,7 +25,12 @@ def Env.find (env : Env) (name : String) : Option Entry := (env.find? (·.1 == n
 
 def Entry.obsvId : Entry → Nat
   | .obsv id => id | .subj _ id => id | .bsubj _ id => id | .rsubj _ id => id | .asubj _ id => id
-  | .publish _ _ id _ => id
+  | .publish _ _ id _ => id | .refc _ id => id | .counter c => c
+
+def Entry.subject? : Entry → Option Subj
+  | .subj sj _ => some sj | .bsubj b _ => some b.inner | .rsubj r _ => some r.inner | .asubj sj _ => some sj
+  | .publish _ sj _ _ => some sj | .refc sj _ => some sj
+  | _ => none
 
 /-! ### values, events, function names -/
 partial def parseData : Sexp → Option Data
@@ -117,7 +124,7 @@ partial def parsePipe (env : Env) : Sexp → Option Obsv
         | .list evs => evs.mapM parseEv
         | _ => none
       match env.find cname with
-      | some (.obsv c) => some (oFlaky (← tag.asNat) c ss)   -- the counter cell is registered as a pseudo entry
+      | some (.counter c) => some (oFlaky (← tag.asNat) c ss)
       | _ => none
   | .list [.atom "ref", .atom name] => refObsv env name
   | .list [.atom "map", f, p] => do some (stdOp (kMap (← parseFn f)) (← parsePipe env p))
@@ -196,7 +203,7 @@ def World.allocSubj (w : World) : World × Subj :=
   let (w, d) := w.allocSlot
   (w, ⟨a, b, c, d⟩)
 
-def fuelPerStep : Nat := 400000
+def fuelPerStep : Nat := 60000
 
 def recStr : Rec → String
   | .ev s e => "s" ++ toString s ++ ":" ++ e.toStr
@@ -219,12 +226,17 @@ def stashed (w : World) : List Nat :=
 
 def boolStr (b : Bool) : String := if b then "T" else "F"
 
-def observe (before : Nat) (w : World) : String :=
+def observe (env : Env) (before : Nat) (w : World) : String :=
   let recs := (w.trace.drop before).map recStr
   let subs := w.users.map fun u => boolStr ((w.obs[u.obs]?.map Obs.isSub).getD false)
   let live := (stashed w).map fun o => boolStr ((w.obs[o]?.map Obs.isSub).getD false)
-  " ".intercalate recs ++ " ; S=" ++ "".intercalate subs ++ " L=" ++ "".intercalate live ++
-    " st=" ++ statusStr w.status
+  let counts := env.reverse.filterMap fun (_, e) => e.subject?.map fun sj =>
+    toString (amapLen (w.cells[sj.observers]?.getD .lnil))
+  if w.status == .ok then
+    " ".intercalate recs ++ " ; S=" ++ "".intercalate subs ++ " L=" ++ "".intercalate live ++
+      " O=" ++ ",".intercalate counts ++ " st=ok"
+  else
+    " ".intercalate recs ++ " ; S= L= O= st=" ++ statusStr w.status
 
 /-- user reactions: `(react (I ACTION)...)`; observable-valued items are always subscribed to by a
     child user with no reactions of its own -/
@@ -297,7 +309,7 @@ def stepProg (env : Env) (w : World) : Sexp → Option (World × Env × Prog)
       some (w, (name, .rsubj r id) :: env, .done)
   | .list [.atom "counter", .atom name] =>
       let (w, c) := w.allocCell (.int 0)
-      some (w, (name, .obsv c) :: env, .done)
+      some (w, (name, .counter c) :: env, .done)
   | .list [.atom "def", .atom name, p] => do
       let o ← parsePipe env p
       let (w, id) := w.allocObsv o
@@ -315,7 +327,7 @@ def stepProg (env : Env) (w : World) : Sexp → Option (World × Env × Prog)
       let (w, c) := w.allocCell (.bool false)
       let (w, sb) := w.allocCell .lnil
       let (w, id) := w.allocObsv sj.observable
-      some (w, (name, .obsv id) :: env,
+      some (w, (name, .refc sj id) :: env,
         refCountHooks ⟨c, sb⟩ o sj.onSub sj.onUnsub (fun x => sj.next x) (fun e => sj.error e) sj.complete)
   | .list [.atom "conn", .atom name, .atom "replay", p] => do
       let o ← parsePipe env p
@@ -327,7 +339,7 @@ def stepProg (env : Env) (w : World) : Sexp → Option (World × Env × Prog)
       let (w, c) := w.allocCell (.bool false)
       let (w, sb) := w.allocCell .lnil
       let (w, id) := w.allocObsv r.observable
-      some (w, (name, .obsv id) :: env,
+      some (w, (name, .refc sj id) :: env,
         refCountHooks ⟨c, sb⟩ o sj.onSub sj.onUnsub (fun x => r.next x) (fun e => r.error e) r.complete)
   | .list [.atom "sub", p, react] => do
       let o ← parsePipe env p
@@ -360,7 +372,7 @@ def runSteps (rs : RunState) : List Sexp → RunState
     | some (w, env, p) =>
       let before := w.trace.length
       let w' := run fuelPerStep [p] w
-      let rs' := { w := w', env := env, out := rs.out ++ [observe before w'] }
+      let rs' := { w := w', env := env, out := rs.out ++ [observe env before w'] }
       if w'.status == .ok then runSteps rs' rest else rs'
 
 def runCase (line : String) : String :=
